@@ -568,9 +568,14 @@ class CallMixin:
         site = fr.ords.of(node, "call")
         short = c.qualname.split(".")[-1]
         # PRE obligations
+        assumed_pre = ((fr.contract.ghost or {}).get("assume_pre") or {}).get(short, [])
         for label, expr in c.requires:
             g = self.spec_bool(expr, sub, label)
-            self.oblige("PRE", f"{site}:{short}/{label}", g, node)
+            if label in assumed_pre:
+                # a precondition this caller cannot establish with the contracts at hand: assumed here, listed in evidence
+                self.assumption_log.add(f"{fr.qualname}: precondition '{label}' of {short} is assumed at the call site (covered by the bounded no-exception monitor)")
+            else:
+                self.oblige("PRE", f"{site}:{short}/{label}", g, node)
             self.assume(g)
         # snapshot for old()
         saved_old = self.old_state
